@@ -75,10 +75,11 @@ func c10Run(c *Ctx) {
 	var spec EnvSpec
 	spec.RK = cfg.Intn(harness.NumRK)
 	mode := cfg.Intn(4)
-	if mode == 1 && len(o.Exif) > 1 {
+	if mode == 1 && len(o.Exif) > 1 && !c.L("cfg:x").Chance(1, 2) {
 		// the library's own Exif reader is one object that the harness (like imagemeta.DecodeJPEG)
-		// hands to every invocation; a second Exif segment would test the re-use of that reader,
-		// which is not the scanner's framing
+		// hands to every invocation: half of these cases keep a single Exif segment, the other half
+		// test what the property's premise says of that reader - that it consumes its declared
+		// length - for the second and later segments too
 		o.Exif = o.Exif[:1]
 	}
 	j := gen.DrawJPEG(g, o)
